@@ -28,3 +28,27 @@ Proof.
   intros He Hr. unfold reinit_dkg, with_msgs. cbn [rd_id rd_msgs rd_hash rd_parts].
   rewrite (reinit_msgs_skips_foreign _ _ _ m He Hr). reflexivity.
 Qed.
+
+(* ---- the replay does not verify: what the original nodes refused for its signature is applied ---- *)
+Definition with_sig (m : message) (s : sigv) : message :=
+  {| m_round := m_round m; m_event := m_event m; m_data := m_data m; m_req := m_req m; m_sig := s;
+     m_sender := m_sender m; m_recipient := m_recipient m; m_tasks := m_tasks m |}.
+(* while verification is switched off (as during a reinitialisation) the signature of a message is
+   never looked at: a message the original nodes refused for its signature is replayed like a genuine one *)
+Theorem unverified_replay now st m s :
+  ns_skip st = true ->
+  process_message now {| h_st := st; h_tr := [] |} (with_sig m s) = process_message now {| h_st := st; h_tr := [] |} m.
+Proof.
+  intros Hs. unfold process_message, with_sig.
+  cbn [m_round m_event m_data m_req m_sig m_sender m_recipient m_tasks].
+  destruct (get_instance {| h_st := st; h_tr := [] |} (m_round m) true) as [h1 inst| |] eqn:Eg; try reflexivity.
+  assert (Hh1 : h1 = {| h_st := st; h_tr := [] |}).
+  { unfold get_instance in Eg. cbn [h_st] in Eg.
+    destruct (tget' (ns_rounds st) (m_round m)) as [d|].
+    - destruct (from_dump d); try discriminate. inversion Eg; reflexivity.
+    - destruct (N.eqb (m_round m) 0); [discriminate|]. destruct create; try discriminate; inversion Eg; reflexivity. }
+  subst h1. unfold verify_ok. cbn [h_st]. rewrite Hs. cbn [orb negb andb].
+  unfold pm_tail, pm_prop, pm_restart.
+  cbn [m_round m_event m_data m_req m_sig m_sender m_recipient m_tasks h_st].
+  reflexivity.
+Qed.
